@@ -31,6 +31,19 @@ if len(sys.argv) > 2 and sys.argv[2] == 'helpers':
              'themselves stay textually untouched. If the property has a single small anchor file with no such dependencies, choose '
              'the least visited branches of it instead. The two changes must be in different files or classes. Do not use '
              '`git stash` (the stash is shared between worktrees): keep your patches as files.\n')
+if len(sys.argv) > 2 and sys.argv[2] == 'lifecycle':
+    extra = ('\nOther testers have already broken this property many times on freshly constructed objects given ordinary arguments. '
+             'Work differently: make each change manifest only on objects WITH A HISTORY or on LEGAL BUT UNUSUAL ARGUMENT FORMS. '
+             'Histories: an object that was loaded from JSON / an envelope rather than built; serialised, exported or rendered once '
+             'and then edited and used again; inserted into another HUGR and then edited on either side; resolved against a registry; '
+             'copied (copy.copy / copy.deepcopy / pickle / dataclasses.replace); a builder that is used again after to_json(); a node '
+             'whose operation object is shared with another node or replaced in place; indices reused after deletions; the same call '
+             'made twice. Argument forms: every overload and optional parameter of the public entry points the property names, the '
+             'protocols they accept (a Node where a port is expected, any Iterable or Mapping where a list or dict is usual, '
+             'subclasses, keyword instead of positional arguments), negative / zero / very large numbers, empty rows and empty '
+             'strings, non-ASCII and white-space-edged text, bool where int is allowed. First list which of these the property\'s '
+             'quantifier covers, then pick two that an automated generator of ordinary API calls is least likely to produce and break '
+             'the code ONLY there. The two changes must be of different nature and in different functions. Do not use `git stash`.\n')
 prop = next(json.loads(l) for l in open('/verif/properties.jsonl') if json.loads(l)['id'] == p)
 os.makedirs('/tmp/wt', exist_ok=True)
 wt = f'/tmp/wt/{p}'
